@@ -8,61 +8,72 @@
    system with the modes the property allows. *)
 From Coq Require Import Permutation.
 From Oras Require Import Base.Prelude Generated.GC12 Model.TarRoundTrip Model.FileAnnotations
-  Proofs.TarRoundTrip Proofs.TarWalkOrder Proofs.TarListingOrder.
+  Proofs.TarRoundTrip Proofs.TarWalkOrder Proofs.TarListingOrder Proofs.TarRootMode.
 
-(* Round trip, exactly as the current code behaves: every path of the restored directory
-   is the path of the source tree -- same kind, bytes, link target, and mode (minus the umask
-   unless PreservePermissions) -- nothing else exists, and extraction does not fail; for every
-   tree with distinct names per directory, modes within 07777 (files) / 01777 (directories), and relative symlinks that
-   stay inside and do not pass through other symlinks, any child order, any umask.
-   [expected_impl] differs from [expected] at one point: without PreservePermissions the
-   directory itself has mode 0777 minus umask (pre-created by ensureDir), see C12_root_mode_refuted. *)
-Theorem C12_roundtrip_partial :
+(* Round trip at full strength: every path of the restored directory -- the directory itself
+   included -- is the path of the source tree: same kind, bytes, link target, and mode (minus
+   the umask unless PreservePermissions); nothing else exists, and extraction does not fail.
+   For every tree with distinct names per directory, modes within 07777 (files) / 01777
+   (directories), and relative symlinks that stay inside and do not pass through other symlinks
+   or regular files; any child order, any umask within 0777 (the kernel keeps no other bits). *)
+Theorem C12_roundtrip :
   forall pre umask preserve repro T,
+    umask <= 511 ->
     is_dir T = true -> wf_treeb T = true -> modes_okb T = true -> benign_tree T = true ->
     exists f', extract pre umask preserve (entries pre repro [] T) = Ok f' /\
-      forall p, fs_lookup f' p = expected_impl umask preserve T p.
-Proof. exact roundtrip_impl. Qed.
-Print Assumptions C12_roundtrip_partial.
+      forall p, fs_lookup f' p = expected umask preserve T p.
+Proof. exact roundtrip_full. Qed.
+Print Assumptions C12_roundtrip.
 
 (* The same for what Store.Add really writes: filepath.Walk sorts every directory; the
    hypotheses and the result are stated on the tree as given (sorting changes neither). *)
-Theorem C12_roundtrip_walk_partial :
+Theorem C12_roundtrip_walk :
   forall pre umask preserve repro T,
+    umask <= 511 ->
     is_dir T = true -> wf_treeb T = true -> modes_okb T = true -> benign_tree T = true ->
     exists f', extract pre umask preserve (tar_entries pre repro T) = Ok f' /\
-      forall p, fs_lookup f' p = expected_impl umask preserve T p.
-Proof. exact roundtrip_walk. Qed.
-Print Assumptions C12_roundtrip_walk_partial.
+      forall p, fs_lookup f' p = expected umask preserve T p.
+Proof. exact roundtrip_walk_full. Qed.
+Print Assumptions C12_roundtrip_walk.
 
-(* With PreservePermissions the restored directory is the source tree, modes exact. *)
+(* With PreservePermissions the modes are exact and no bound on the umask is needed. *)
 Theorem C12_roundtrip_preserve :
   forall pre umask repro T,
     is_dir T = true -> wf_treeb T = true -> modes_okb T = true -> benign_tree T = true ->
     exists f', extract pre umask true (entries pre repro [] T) = Ok f' /\
       forall p, fs_lookup f' p = expected umask true T p.
-Proof. exact roundtrip_preserve. Qed.
+Proof. exact roundtrip_preserve_full. Qed.
 Print Assumptions C12_roundtrip_preserve.
 
-(* Without it everything below the directory itself is the source tree minus the umask. *)
-Theorem C12_roundtrip_umask :
-  forall pre umask repro T,
+(* The code before the root-mode fix ([extract_prefix]: nothing happens after the last entry):
+   the round trip held with the directory's own mode replaced by 0777 minus umask
+   ([expected_impl]), and the full statement failed: a 0700 directory under umask 022 came
+   back 0755.  Finding "root-mode", fixed in the repository (narrowDirMode at io.EOF). *)
+Theorem C12_roundtrip_prefix_partial :
+  forall pre umask preserve repro T,
     is_dir T = true -> wf_treeb T = true -> modes_okb T = true -> benign_tree T = true ->
-    exists f', extract pre umask false (entries pre repro [] T) = Ok f' /\
-      (forall p, p <> [] -> fs_lookup f' p = expected umask false T p) /\
-      (exists m, fs_lookup f' [] = Some (NDir m)).
-Proof. exact roundtrip_umask. Qed.
-Print Assumptions C12_roundtrip_umask.
+    exists f', extract_prefix pre umask preserve (entries pre repro [] T) = Ok f' /\
+      forall p, fs_lookup f' p = expected_impl umask preserve T p.
+Proof. exact roundtrip_impl. Qed.
+Print Assumptions C12_roundtrip_prefix_partial.
 
-(* The full statement (the directory itself included) fails for the current code:
-   a 0700 directory under umask 022 comes back 0755. Known finding "root-mode". *)
-Theorem C12_root_mode_refuted :
+Theorem C12_root_mode_prefix_refuted :
   exists T umask,
     is_dir T = true /\ wf_treeb T = true /\ modes_okb T = true /\ benign_tree T = true /\
-    exists f', extract [b "d"] umask false (tar_entries [b "d"] true T) = Ok f' /\
+    exists f', extract_prefix [b "d"] umask false (tar_entries [b "d"] true T) = Ok f' /\
       fs_lookup f' [] <> expected umask false T [].
 Proof. exact root_mode_refuted. Qed.
-Print Assumptions C12_root_mode_refuted.
+Print Assumptions C12_root_mode_prefix_refuted.
+
+(* Before the fix of tarDirectory, Add of a path that is a symbolic link to a directory
+   archived the link itself (filepath.Walk does not follow a link root): the single entry
+   [entries pre repro [] (Link tg mt)], which can never be unpacked.
+   Finding "added-symlink-archived-as-link", fixed in the repository (the root is resolved). *)
+Theorem C12_symlinked_root_prefix_refuted :
+  forall pre umask preserve repro tg mt f,
+    extract pre umask preserve (entries pre repro [] (Link tg mt)) <> Ok f.
+Proof. exact symlinked_root_prefix_refuted. Qed.
+Print Assumptions C12_symlinked_root_prefix_refuted.
 
 (* Before the fix, PreservePermissions lost setuid/setgid/sticky (a 01777 directory came back
    0777): os.Chmod(path, os.FileMode(header.Mode)) passes only the permission bits.
@@ -99,13 +110,14 @@ Section Codec.
   Proof. exact (descriptor_of_stored_bytes digest H enc gz gunz gunz_gz). Qed.
 
   (* Add -> Push of the very blob and descriptor restores the tree *)
-  Theorem C12_unpack_roundtrip_partial :
+  Theorem C12_unpack_roundtrip :
     forall pre umask preserve repro T,
+      umask <= 511 ->
       is_dir T = true -> wf_treeb T = true -> modes_okb T = true -> benign_tree T = true ->
       exists f', unpack digest H digest_eqb dec gunz umask preserve
                    (dir_descriptor digest H enc gz pre repro T) (dir_blob enc gz pre repro T) = Ok f' /\
-        forall p, fs_lookup f' p = expected_impl umask preserve T p.
-  Proof. exact (unpack_roundtrip_walk digest H digest_eqb enc dec gz gunz digest_eqb_spec dec_enc gunz_gz). Qed.
+        forall p, fs_lookup f' p = expected umask preserve T p.
+  Proof. exact (unpack_roundtrip_full digest H digest_eqb enc dec gz gunz digest_eqb_spec dec_enc gunz_gz). Qed.
 
   (* the recorded uncompressed digest is verified on unpack *)
   Theorem C12_wrong_checksum_rejected :
@@ -148,7 +160,7 @@ Section Codec.
   Qed.
 End Codec.
 Print Assumptions C12_descriptor.
-Print Assumptions C12_unpack_roundtrip_partial.
+Print Assumptions C12_unpack_roundtrip.
 Print Assumptions C12_wrong_checksum_rejected.
 Print Assumptions C12_wrong_blob_rejected.
 Print Assumptions C12_reproducible.
@@ -230,6 +242,13 @@ Example C12_nonvacuous :
     [ [b "d"]; [b "d"; b "a-rather-long-name.with.dots"]; [b "d"; b "sub"]; [b "d"; b "sub"; b "e"];
       [b "d"; b "sub"; b "empty"]; [b "d"; b "sub"; b "self"]; [b "d"; b "sub"; b "up"]; [b "d"; b "z"] ].
 Proof. vm_compute. repeat split; reflexivity. Qed.
+
+Example C12_nonvacuous_roundtrip :
+  exists f', extract [b "d"] 18 false (tar_entries [b "d"] true C12_example_tree) = Ok f' /\
+    fs_lookup f' [] = Some (NDir 493) /\ fs_lookup f' [b "sub"] = Some (NDir 448) /\
+    fs_lookup f' [b "sub"; b "empty"] = Some (NDir 1005) /\ fs_lookup f' [b "z"] = Some (NFile (b "zz") 2541) /\
+    fs_lookup f' [b "sub"; b "up"] = Some (NLink (b "../z")) /\ fs_lookup f' [b "nothing"] = None.
+Proof. eexists. vm_compute. repeat split; reflexivity. Qed.
 
 Example C12_nonvacuous_listing :
   same_tree (Dir 493 0 [(b "b", File [] 420 0); (b "a", Link (b "b") 0)])
